@@ -25,8 +25,12 @@
        unchanged by rigid motion .................. C18_connectivity_rigid_invariant (any orthogonal matrix);
        relabels under atom reordering ............. C18_connectivity_relabel.
     The hand models of the glue (measure dispatch, distance_matrix, the bond test) are the translated source:
-    C18_generated_glue_is_model.  Only correspondence/oracle: the radii lookup (C17's business), the default_connectivity
-    post-processing and the single/many wrapping of measure_coordinates (pinned structurally by the translator), binary64 effects.
+    C18_generated_glue_is_model.  The single/many wrapping of measure_coordinates and the default_connectivity post-processing are
+    translated too (measure_wrap_gen, attach_default_gen): C18_measure_single_and_many_forms (one measurement = the bare value of its
+    row, a list = the list of values, [] raises IndexError), C18_default_connectivity_keeps_bonds (the option never adds, drops,
+    reorders or alters a bond).  Only correspondence/oracle: the radii lookup (C17's business; the statements that read geometry and
+    radii are pinned verbatim by the translator), binary64 effects, the container / memory layout / dtype of the point arrays (the
+    oracle hands every point array over in 15 layouts).
 
     compute_distance / compute_angle / compute_dihedral are the definitions
     of Gen/Dihedral.v, regenerated from qcelemental/util/misc.py on every run ([..._pre] = the code up
@@ -36,7 +40,7 @@
 From Coq Require Import List Bool ZArith Reals QArith.
 Require Import QV.Common.Outcome QV.Common.Geo3 QV.Common.Geo3Np QV.Common.Geo3Facts QV.Common.Geo3R QV.Common.Geo3Q.
 Require Import QV.Gen.Dihedral QV.Model.Geometry QV.Proofs.Geometry QV.Proofs.GeometryR.
-Require Import QV.Common.Geo3Glue QV.Gen.GeoGlue QV.Proofs.GeoGlue QV.Proofs.GeoMore.
+Require Import QV.Common.Geo3Glue QV.Gen.GeoGlue QV.Proofs.GeoGlue QV.Proofs.GeoMore QV.Proofs.GeoWrap.
 Import ListNotations.
 
 (** * Part A: any field *)
@@ -256,6 +260,29 @@ Proof.
   repeat split; assumption.
 Qed.
 
+(** measure_coordinates(coords, m) with ONE measurement m (a non-empty list of indices) returns the bare value of that measurement
+    - what its row computes in the list form ([measure1], C18_measure_index_form) - and with a list of measurements the list of their
+    values; an empty list raises IndexError.  [measure_coordinates_entry_gen] is translated from the statements around the loop. *)
+Theorem C18_measure_single_and_many_forms : forall (K : Fops) (coords : list (vec3 K)) (dg : option bool),
+  (forall m, m <> [] ->
+     measure_coordinates_entry_gen K coords (MOne m) dg
+     = obind (measure1 K coords (match dg with Some d => d | None => false end) m) (fun v => Ok (ROne v)))
+  /\ (forall ms, measure_coordinates_entry_gen K coords (MMany ms) dg
+                 = obind (measure K coords (match dg with Some d => d | None => false end) ms) (fun r => Ok (RMany r)))
+  /\ measure_coordinates_entry_gen K coords (MMany []) dg = Err PyIndexError.
+Proof.
+  intros K coords dg. split; [intros m H; apply (measure_wrap_single K coords dg m H)|].
+  split; [intros ms; apply (measure_wrap_many K coords dg ms) | apply (measure_wrap_empty K coords dg)].
+Qed.
+
+(** guess_connectivity's default_connectivity option: the bonds (i, j) are those found by the loop, in the same order, whatever the
+    option; every bond carries the value when it is truthy, none does otherwise *)
+Theorem C18_default_connectivity_keeps_bonds : forall (B : Type) (truthy : B -> bool) (dc : option B) (con : list (nat * nat)),
+  map (fun t => (fst (fst t), snd (fst t))) (attach_default_gen truthy dc con) = con
+  /\ forall t, In t (attach_default_gen truthy dc con) ->
+       snd t = match dc with Some v => if truthy v then Some v else None | None => None end.
+Proof. intros. apply attach_default_pairs. Qed.
+
 (** * Part B: the real numbers *)
 Local Open Scope R_scope.
 
@@ -390,6 +417,8 @@ Print Assumptions C18_generated_glue_is_model.
 Print Assumptions C18_batched_full.
 Print Assumptions C18_broadcast_distance.
 Print Assumptions C18_entry_point_defaults.
+Print Assumptions C18_measure_single_and_many_forms.
+Print Assumptions C18_default_connectivity_keeps_bonds.
 Print Assumptions C18_angle_R_is_textbook.
 Print Assumptions C18_angle_R_range.
 Print Assumptions C18_distance_R.
